@@ -1305,7 +1305,9 @@ fn run_cops<F: Read + Write + Seek>(comp: &mut CompoundFile<F>, ops: &[COp]) -> 
     // logical dump
     let entries: Vec<cfb::Entry> = comp.walk().collect();
     for e in entries {
-        let mut line = format!("{}:{}:{}", e.path().display(), e.len(), e.state_bits());
+        // the root entry's length is the size of the mini stream: layout, not content
+        let len = if e.is_root() { 0 } else { e.len() };
+        let mut line = format!("{}:{}:{}", e.path().display(), len, e.state_bits());
         if e.is_stream() {
             let mut v = Vec::new();
             if let Ok(mut s) = comp.open_stream(e.path()) {
@@ -1709,7 +1711,11 @@ pub fn deviations(seed: u64, count: usize) -> Report {
         let a = rng.below(devs.len() as u64) as usize;
         let b2 = rng.below(devs.len() as u64) as usize;
         let c3 = rng.below(devs.len() as u64) as usize;
-        plans.push(vec![a, b2, c3]);
+        // each deviation at most once: applied twice, a counter deviation can undo itself
+        let mut combo = vec![a, b2, c3];
+        combo.sort();
+        combo.dedup();
+        plans.push(combo);
         for plan in plans {
             let mut img = clean.clone();
             let mut names = Vec::new();
